@@ -304,7 +304,7 @@ func run(scenPath string, repeat int, res *result) error {
 	slots[1].setRouter(nil)
 	for _, ep := range []string{"msgpack", "lp_v1", "lp_v2", "lp_simple", "tle", "query", "query_msgpack", "estimate", "arrow"} {
 		rq, _ := mkRequest(ep)
-		st, body, err := do(client, slots[1], rq, "")
+		st, body, err := doArrowSafe(client, slots[1], rq, ep, "", res)
 		if err != nil {
 			return fmt.Errorf("probe %s: %w", ep, err)
 		}
@@ -363,15 +363,12 @@ func run(scenPath string, repeat int, res *result) error {
 			hdrVal = "n2"
 		}
 		for rep := 0; rep < repeat; rep++ {
-			st, body, err := do(client, slots[1], rq, hdrVal)
 			// The Arrow stream handler intermittently answers with a corrupted status line
-			// ("0TTP/1.1"; also seen over real TCP loopback): a transport-level failure is never
-			// judged; the request is repeated and, if it keeps failing, counted as unjudged.
-			for try := 0; err != nil && sc.Ep == "arrow" && try < 8; try++ {
-				takeEvents()
-				res.Retries++
-				st, body, err = do(client, slots[1], rq, hdrVal)
-			}
+			// ("0TTP/1.1"; also seen over real TCP loopback).  Such a transport-level failure --
+			// seen by the test client as an error, or by a forwarding router as 502 after its own
+			// retry -- is never judged: the request is repeated and, if it keeps failing, counted
+			// as unjudged.
+			st, body, err := doArrowSafe(client, slots[1], rq, sc.Ep, hdrVal, res)
 			if err != nil && sc.Ep == "arrow" {
 				takeEvents()
 				res.Unjudged++
@@ -382,7 +379,7 @@ func run(scenPath string, repeat int, res *result) error {
 			}
 			res.Requests++
 			res.PerEp[sc.Ep]++
-			chain := takeEvents()
+			chain := collapseRetries(takeEvents())
 			// who processed locally
 			var procs []int
 			if rq.isWrite {
@@ -506,6 +503,33 @@ func run(scenPath string, repeat int, res *result) error {
 	res.Targets = len(targetsSeen)
 	tr.CloseIdleConnections()
 	return nil
+}
+
+// doArrowSafe is do() plus the repeat rule for the Arrow endpoint's transport failures.
+func doArrowSafe(client *http.Client, entry *slot, rq *reqSpec, ep, marker string, res *result) (int, []byte, error) {
+	st, body, err := do(client, entry, rq, marker)
+	for try := 0; ep == "arrow" && (err != nil || st == 502) && try < 8; try++ {
+		takeEvents()
+		res.Retries++
+		st, body, err = do(client, entry, rq, marker)
+	}
+	if ep == "arrow" && err == nil && st == 502 {
+		err = fmt.Errorf("arrow request kept failing at transport level (502)")
+	}
+	return st, body, err
+}
+
+// collapseRetries drops the repeated receptions a router's own retry of ONE forward produces
+// (same target, same forwarder marker as the previous reception): a retried hop is one hop.
+func collapseRetries(chain []event) []event {
+	var out []event
+	for _, e := range chain {
+		if n := len(out); n > 0 && e.FwdBy != "" && out[n-1].Node == e.Node && out[n-1].FwdBy == e.FwdBy {
+			continue
+		}
+		out = append(out, e)
+	}
+	return out
 }
 
 func hasTarget(nodes []int, isWrite bool) bool {
